@@ -12,6 +12,13 @@ from .. import core
 from ..budget import CountingStream, Sink
 
 
+def Position_word(_unused, x, y, z, xzy):
+    """The 64-bit word of a block position, big-endian: x:26 | y:12 | z:26 up to 1.13.2, x:26 | z:26 | y:12 from 1.14."""
+    X, Y, Z = x & 0x3FFFFFF, y & 0xFFF, z & 0x3FFFFFF
+    w = (X << 38) | (Z << 12) | Y if xzy else (X << 38) | (Y << 26) | Z
+    return w.to_bytes(8, 'big')
+
+
 def run(chk):
     mc = core.import_minecraft()
     from minecraft.networking import types as T
@@ -235,6 +242,33 @@ def run(chk):
         chk.traces += len(obs)
         for j, o in enumerate(obs):
             chk.case(('rand', o['x'], o['y'], o['z'], o['p']))
+    # ---- "of the connection's protocol": a packet that carries another connection's context (re-used, or built with
+    #      one) is packed with the layout of the connection it is written to
+    from minecraft.networking.connection import Connection, ConnectionContext
+    from minecraft.networking.packets import serverbound
+    sup = set(mc.SUPPORTED_PROTOCOL_VERSIONS)
+    for (va, vb) in ((404, 477), (477, 404), (340, 757), (757, 47), (441, 498)):
+        if va not in sup or vb not in sup:
+            continue
+        for (x, y, z) in ((1200, 65, -420), (-33554432, -2048, 33554431), (7, 2047, -7)):
+            conn_b = Connection('localhost', 25565, allowed_versions={vb})
+            pk = serverbound.play.PlayerBlockPlacementPacket(context=ConnectionContext(protocol_version=va))
+            pk.location = T.Position(x=x, y=y, z=z)
+            pk.face, pk.hand, pk.x, pk.y, pk.z, pk.inside_block = 1, 0, 1, 1, 1, False
+            conn_b.socket = Sink()
+            try:
+                conn_b.write_packet(pk, force=True)
+                data = conn_b.socket.value()
+            except Exception as e:      # noqa
+                data = repr(e).encode()
+            kn = list(mc.KNOWN_PROTOCOL_VERSIONS)
+            word = Position_word(None, x, y, z, kn.index(vb) >= kn.index(443))
+            chk.evaluations += 1
+            chk.case(('stale-context', va, vb, x, y, z))
+            if word not in data:
+                chk.violation('Position:connection-context', 'a block-placement packet carrying the context of protocol %d, written through a '
+                              'connection at protocol %d, does not contain the position (%d, %d, %d) packed for protocol %d (%s): wrote %s'
+                              % (va, vb, x, y, z, vb, word.hex(), data[:24].hex()), {'from': va, 'to': vb})
     chk.sample({'layout_vector_excerpt': [v for v in vec if 400 <= v['p'] <= 480][:12]})
     chk.extra['rows'] = {k: len(v) for k, v in by_kind.items()}
     chk.extra['random_observations'] = len(obs)
